@@ -9,7 +9,7 @@ ids = [p["id"] for p in props]
 hook_commits = subprocess.run(["git", "-C", "/repo", "log", "--format=%h %s", "--grep=^verif-hooks"], capture_output=True, text=True).stdout.strip().splitlines()
 man = {
     "version": 1,
-    "setup_cmd": "cd /verif/harness && CARGO_NET_OFFLINE=true cargo build --release --offline",
+    "setup_cmd": "cd /verif/harness && CARGO_NET_OFFLINE=true cargo build --release --offline && CARGO_NET_OFFLINE=true cargo build --release --offline --features verif-hooks --bin routinator --manifest-path /repo/Cargo.toml --target-dir /verif/harness/target/repo-bin",
     "hooks": {
         "guard": "cargo feature `verif-hooks` of the routinator crate (off by default)",
         "enable": "the harness crate depends on routinator = { path = \"/repo\", features = [\"arbitrary\", \"verif-hooks\"] }; the hooked CLI binary is built by `cargo build --release --features verif-hooks --bin routinator` into the harness' own target dir",
